@@ -606,7 +606,8 @@ async fn drive(net: NetRef, run: RunDesc, port: u16) -> Value {
                 Expect::Unspecified(_) => {}
                 Expect::Banner | Expect::BadRequest | Expect::Svg(_) => {
                     let (want_status, want_body): (u16, Option<Vec<u8>>) = match &exp {
-                        Expect::Banner => (200, Some(banner.clone().into_bytes())),
+                        // the statement fixes what a GET returns (package name and version), not its exact layout
+                        Expect::Banner => (200, None),
                         Expect::BadRequest => (400, None),
                         Expect::Svg(body) => {
                             let doc = lib_cache.entry(body.clone()).or_insert_with(|| library(body)).clone();
@@ -626,6 +627,15 @@ async fn drive(net: NetRef, run: RunDesc, port: u16) -> Value {
                             if r.status != 0 && r.status != want_status {
                                 violations.push(json!({"class": "wrong-status", "at": where_, "detail": format!("status {} instead of {}", r.status, want_status)}));
                                 continue;
+                            }
+                            if matches!(exp, Expect::Banner) && r.complete {
+                                let got = String::from_utf8_lossy(&r.body).to_string();
+                                let mut parts = banner.splitn(2, ' ');
+                                let (name, version) = (parts.next().unwrap_or(""), parts.next().unwrap_or(""));
+                                if !(got.contains(name) && got.contains(version)) || got.len() > 200 {
+                                    violations.push(json!({"class": "wrong-body", "at": where_, "detail": format!("GET / answered {:?}, expected the package name and version ({})", simcommon::preview(&got, 80), banner)}));
+                                    continue;
+                                }
                             }
                             if let Some(wb) = &want_body {
                                 if !wb.starts_with(&r.body) {
